@@ -1,24 +1,57 @@
 package main
 
-// C16 (extra leg, implementation only): ONE transient file-system fault inside a capped delivery.  A delivery to a full mailbox of the file
-// store is two index updates (the eviction's, then the delivery's own); a disk that refuses ONE of these writes and works again must not make
-// the store announce a removal twice, announce the removal of a message that stays listed, or keep silent about one that goes:
-//   * no (mailbox, id) is ever the subject of two `deleted` events,
-//   * a message announced as deleted is not listed afterwards, a message that was listed and no longer is has been announced,
-//   * what is listed can be read back.
-// The fault is placed with the verif step hook of pkg/storage/file (called before every file-system mutation): at the chosen `create-tmp` step
-// the temporary index path is occupied by a directory, which is removed again at the next step.
+// C16 (extra leg): file-system calls REFUSED inside the file store's mutating operations, the process living on.
+//
+// The verif step hook of pkg/storage/file is called immediately before every file-system mutation, in execution order; the k-th call of an
+// operation (k = 0, 1, …) is the k-th `Hook` of the fault model lean/Ibx/Model/FsFault.lean.  The hook makes the NEXT call fail by
+// obstructing its path and removes the obstruction at the following hook call (or when the operation has returned), so that a refused call
+// leaves the directory as the model says — exactly as it was:
+//     mkdirall      a regular file where the first missing directory of the path would be created
+//     create-raw    a directory in place of <id>.raw                      create-tmp     a directory in place of index.gob.tmp
+//     copy-raw      the delivery's reader fails (io.Copy returns the error)
+//     flush-tmp     index.gob.tmp is made a symlink to /dev/full at create-tmp (the buffered index reaches the file at the flush)
+//     rename        index.gob.tmp is moved aside (ENOENT), moved back afterwards
+//     unlink-raw    <id>.raw is moved aside (ENOENT), moved back afterwards
+//     unlink-index  a non-empty directory in place of index.gob (os.Remove fails with something else than ENOENT), the index put back afterwards
+//     rmdir-parent  a file inside the directory that is to be removed
+//   flush-raw (the body went to the file during copy-raw: the buffer is empty), close-raw, close-tmp and removeall cannot be made to fail this way; an index that lands on them is recorded and the operation runs unhindered.
+//
+// Every operation of a scenario — faulty or not — is (T2) compared with the model's `fault <op> refuse=<indices>`: the result class, the
+// `deleted` events in order, the hook trace (= the steps the code still executed), whether the mailbox directory exists, the unlisted files left
+// in it, and what every mailbox lists (metadata and content).
+//
+// Implementation-only oracles (never consult the model):
+//   * listing-works, listed-is-readable, usable-after-fault, untouched-unchanged: after ANY set of refused calls (theorem
+//     `refused_steps_keep_store_wellformed`);
+//   * deleted-event-once, deleted-means-gone, events-exact: after an operation without fault, after a delivery with ONE refused call
+//     (`one_refused_step_in_add_outcomes`, `one_refused_index_write_in_capped_add_events_exact`), as long as the scenario has not gone through a case where the code as it is lets events and disk
+//     disagree — a refused index write inside RemoveMessage / PurgeMessages, or two refused index writes inside one capped delivery; there the
+//     tie is that the implementation does what the model says (`refused_index_write_in_remove_announces_twice`,
+//     `both_index_writes_refused_in_capped_add_fails`), which the comparison asserts.
+// `deleted` events travel through the asynchronous broker: the listener is synchronised with a sentinel event emitted after each operation
+// (the per-listener queue is FIFO), never by sleeping.
 
 import (
+	"errors"
 	"fmt"
 	"io"
+	"math/rand"
+	"net/mail"
 	"os"
 	"path/filepath"
+	"sort"
+	"strconv"
 	"strings"
 	"sync"
 	"time"
 
+	"github.com/inbucket/inbucket/v3/pkg/config"
+	"github.com/inbucket/inbucket/v3/pkg/extension"
+	"github.com/inbucket/inbucket/v3/pkg/extension/event"
+	"github.com/inbucket/inbucket/v3/pkg/message"
+	"github.com/inbucket/inbucket/v3/pkg/storage"
 	"github.com/inbucket/inbucket/v3/pkg/storage/file"
+	"github.com/inbucket/inbucket/v3/pkg/stringutil"
 
 	"verif/harness/internal/core"
 )
@@ -31,137 +64,857 @@ func init() {
 		}
 		c16FsFault(c)
 	}
+	register("C16FSF", func(c *core.Ctx) { c.Res.Rule = "the fsfault leg of C16 alone (for the builder's use)"; c16FsFault(c) })
 }
 
 var c16FsMu sync.Mutex // the step hook is one per process
+
+const fsfBarrierBox = "\x00fsfault-barrier"
+
+// ---------------------------------------------------------------- the delivery's reader (copy-raw)
+
+type fsfReader struct {
+	data []byte
+	off  int
+	fail bool
+}
+
+func (r *fsfReader) Read(p []byte) (int, error) {
+	if r.fail {
+		return 0, errors.New("injected: the message source cannot be read")
+	}
+	if r.off >= len(r.data) {
+		return 0, io.EOF
+	}
+	n := copy(p, r.data[r.off:])
+	r.off += n
+	return n, nil
+}
+
+// ---------------------------------------------------------------- one scenario
+
+type fsf struct {
+	*c11Enc
+	c     *core.Ctx
+	m     *core.Model
+	r     *rand.Rand
+	root  string // store directory
+	cap   int
+	names []string // names[0] is the mailbox the operations address
+	st    storage.Store
+	host  *extension.Host
+
+	mu       sync.Mutex
+	deleted  [][2]string // (mailbox, id) in arrival order
+	barrier  chan string
+	barrierN int
+
+	adds      map[string]int // deliveries attempted per mailbox = rank of the last one
+	trace     []string
+	dead      bool
+	noModel   bool
+	tainted   bool            // the code as it is has let events and disk disagree (a case of theorem group (c)): exactness oracles off
+	listed    map[string]bool // ids of names[0] listed after the previous operation
+	announced map[string]int  // id of names[0] -> number of deleted events
+	before    map[string]string
+}
+
+func (h *fsf) boxPath(box string) string {
+	hash := stringutil.HashMailboxName(box)
+	return filepath.Join(h.root, "mail", hash[:3], hash[:6], hash)
+}
+
+func (h *fsf) lines(extra ...string) []string {
+	return append(append([]string{}, h.trace...), extra...)
+}
+
+// sync with the asynchronous broker: everything emitted before the sentinel has been delivered when the sentinel arrives
+func (h *fsf) sync() bool {
+	h.barrierN++
+	want := strconv.Itoa(h.barrierN)
+	h.host.Events.AfterMessageDeleted.Emit(&event.MessageMetadata{Mailbox: fsfBarrierBox, ID: want})
+	deadline := time.After(20 * time.Second)
+	for {
+		select {
+		case got := <-h.barrier:
+			if got == want {
+				return true
+			}
+		case <-deadline:
+			return false
+		}
+	}
+}
+
+// ---------------------------------------------------------------- the injecting hook
+
+type fsfInject struct {
+	h        *fsf
+	box      string
+	rank     int // rank of the delivery in progress (add), else 0
+	refuse   map[int]bool
+	k        int
+	toks     []string
+	undo     func()
+	undoAt   int // the undo runs at the first hook call with index > undoAt
+	injected []int
+	skipped  []string
+	parents  bool // a rmdir-parent was refused: the harness removes the empty parents itself afterwards (the model does not remember them)
+	reader   *fsfReader
+	devFull  bool
+}
+
+func (in *fsfInject) token(step, path string) string {
+	h := in.h
+	idOf := func() string { return strings.TrimSuffix(filepath.Base(path), ".raw") }
+	switch step {
+	case "create-raw":
+		id := idOf()
+		if h.ranks[in.box] == nil {
+			h.ranks[in.box] = map[string]int{}
+		}
+		if _, dup := h.ranks[in.box][id]; dup {
+			h.dead = true
+		} else {
+			h.ranks[in.box][id] = in.rank
+		}
+		return fmt.Sprintf("create-raw:%d", in.rank)
+	case "copy-raw", "flush-raw", "close-raw", "unlink-raw":
+		return fmt.Sprintf("%s:%d", step, h.rank(in.box, idOf()))
+	case "rmdir-parent":
+		rel, _ := filepath.Rel(h.root, path)
+		return fmt.Sprintf("rmdir-parent:%d", len(strings.Split(filepath.ToSlash(rel), "/"))-1)
+	}
+	return step
+}
+
+func (in *fsfInject) set(k int, undo func()) {
+	in.undo, in.undoAt = undo, k
+}
+
+func (in *fsfInject) finish() {
+	if in.undo != nil {
+		in.undo()
+		in.undo = nil
+	}
+	if in.parents {
+		p := filepath.Dir(in.h.boxPath(in.box))
+		if os.Remove(p) == nil {
+			os.Remove(filepath.Dir(p))
+		}
+	}
+}
+
+func (in *fsfInject) hook(step, path string) {
+	if in.undo != nil && in.k > in.undoAt {
+		in.undo()
+		in.undo = nil
+	}
+	k := in.k
+	in.k++
+	in.toks = append(in.toks, in.token(step, path))
+	side := path + ".fsfault-aside"
+	if !in.refuse[k] {
+		// a refused flush-tmp is prepared one hook call earlier: the file about to be created becomes /dev/full
+		ahead := -1
+		if step == "create-tmp" && in.refuse[k+1] {
+			ahead = k + 1
+		}
+		if ahead >= 0 && in.devFull && in.undo == nil {
+			os.Remove(path)
+			if os.Symlink("/dev/full", path) == nil {
+				in.set(ahead, func() {
+					if fi, err := os.Lstat(path); err == nil && fi.Mode()&os.ModeSymlink != 0 {
+						os.Remove(path)
+						os.WriteFile(path, nil, 0o660) // the model: index.gob.tmp was created and nothing reached it
+					}
+				})
+				in.injected = append(in.injected, ahead)
+				in.refuse[ahead] = false // placed; not to be counted as "could not be obstructed" when the flush comes
+			}
+		}
+		return
+	}
+	ok := false
+	switch step {
+	case "mkdirall":
+		p := path
+		for {
+			if _, err := os.Stat(filepath.Dir(p)); err == nil {
+				break
+			}
+			p = filepath.Dir(p)
+		}
+		if os.WriteFile(p, nil, 0o660) == nil {
+			ok = true
+			in.set(k, func() { os.Remove(p) })
+		}
+	case "create-raw", "create-tmp":
+		var keep []byte
+		had := false
+		if b, err := os.ReadFile(path); err == nil { // a leftover index.gob.tmp: the refused create does not truncate it
+			keep, had = b, true
+			os.Remove(path)
+		}
+		if os.Mkdir(path, 0o770) == nil {
+			ok = true
+			in.set(k, func() {
+				os.Remove(path)
+				if had {
+					os.WriteFile(path, keep, 0o660)
+				}
+			})
+		}
+	case "copy-raw":
+		if in.reader != nil {
+			in.reader.fail = true
+			ok = true
+		}
+	case "rename":
+		tmp := path + ".tmp"
+		if os.Rename(tmp, side) == nil {
+			ok = true
+			in.set(k, func() { os.Rename(side, tmp) })
+		}
+	case "unlink-raw":
+		if os.Rename(path, side) == nil {
+			ok = true
+			in.set(k, func() { os.Rename(side, path) })
+		}
+	case "unlink-index":
+		had := os.Rename(path, side) == nil
+		if os.Mkdir(path, 0o770) == nil && os.WriteFile(filepath.Join(path, "x"), nil, 0o660) == nil {
+			ok = true
+			in.set(k, func() {
+				os.RemoveAll(path)
+				if had {
+					os.Rename(side, path)
+				}
+			})
+		} else if had {
+			os.Rename(side, path)
+		}
+	case "rmdir-parent":
+		x := filepath.Join(path, "fsfault-occupied")
+		if os.WriteFile(x, nil, 0o660) == nil {
+			ok = true
+			in.parents = true
+			in.set(k, func() { os.Remove(x) })
+		}
+	}
+	if ok {
+		in.injected = append(in.injected, k)
+	} else {
+		in.skipped = append(in.skipped, fmt.Sprintf("%d:%s", k, step))
+	}
+}
+
+// ---------------------------------------------------------------- observing the implementation
+
+type fsfObs struct {
+	res     string
+	events  []string // ranks, in order
+	toks    []string
+	dir     int
+	orphans []string
+	views   string
+	per     map[string]string
+	ids     map[string]bool // ids of names[0] listed now
+	fresh   [][2]string     // the raw events of this operation
+}
+
+func (o *fsfObs) String() string {
+	csv := func(l []string) string {
+		if len(l) == 0 {
+			return "_"
+		}
+		return strings.Join(l, ",")
+	}
+	return fmt.Sprintf("res=%s events=%s trace=%s dir=%d orphans=%s %s", o.res, csv(o.events), csv(o.toks), o.dir, csv(o.orphans), o.views)
+}
+
+func (h *fsf) delivery(o storeOp, rd *fsfReader) *message.Delivery {
+	tos := make([]*mail.Address, len(o.to))
+	for i, t := range o.to {
+		tos[i] = &mail.Address{Address: t}
+	}
+	return &message.Delivery{Meta: event.MessageMetadata{Mailbox: o.box, From: &mail.Address{Address: o.from}, To: tos,
+		Date: time.Unix(o.date, 0), Subject: o.subj}, Reader: rd}
+}
+
+// run one operation on the real store with the hook calls `refuse` obstructed
+func (h *fsf) run(o storeOp, refuse []int) (*fsfObs, *fsfInject) {
+	in := &fsfInject{h: h, box: o.box, refuse: map[int]bool{}, undoAt: -1}
+	if _, err := os.Stat("/dev/full"); err == nil {
+		in.devFull = true
+	}
+	for _, k := range refuse {
+		in.refuse[k] = true
+	}
+	h.mu.Lock()
+	ev0 := len(h.deleted)
+	h.mu.Unlock()
+	obs := &fsfObs{}
+	func() {
+		defer func() {
+			if r := recover(); r != nil {
+				obs.res = fmt.Sprintf("panic:%v", r)
+			}
+		}()
+		file.VerifStepHook = in.hook
+		defer func() { file.VerifStepHook = nil }()
+		var err error
+		switch o.kind {
+		case "add":
+			in.rank = o.id
+			in.reader = &fsfReader{data: o.body}
+			_, err = h.st.AddMessage(h.delivery(o, in.reader))
+		case "seen":
+			err = h.st.MarkSeen(o.box, h.realID(o.box, o.id))
+		case "rm":
+			err = h.st.RemoveMessage(o.box, h.realID(o.box, o.id))
+		case "purge":
+			err = h.st.PurgeMessages(o.box)
+		}
+		switch {
+		case err == nil:
+			obs.res = "ok"
+		case err == storage.ErrNotExist:
+			obs.res = "notExist"
+		default:
+			obs.res = "err"
+		}
+	}()
+	in.finish()
+	obs.toks = in.toks
+	if !h.sync() {
+		h.c.Fail("events-arrive", h.lines(), "the sentinel event emitted after the operation did not reach the listener within 20 s", "")
+		h.dead = true
+		return obs, in
+	}
+	h.mu.Lock()
+	obs.fresh = append([][2]string{}, h.deleted[ev0:]...)
+	h.mu.Unlock()
+	for _, e := range obs.fresh {
+		if e[0] == o.box {
+			obs.events = append(obs.events, strconv.Itoa(h.rank(o.box, e[1])))
+		} else {
+			obs.events = append(obs.events, fmt.Sprintf("other-mailbox(%s/%s)", core.HexS(e[0]), e[1]))
+		}
+	}
+	// what the mailboxes list
+	obs.per = map[string]string{}
+	parts := make([]string, len(h.names))
+	for i, b := range h.names {
+		ents, problems, err := h.list(h.st, b)
+		obs.per[b] = c11View(ents, err)
+		parts[i] = core.HexS(b) + "=" + obs.per[b]
+		if err != nil {
+			h.c.Fail("listing-works", h.lines(), fmt.Sprintf("GetMessages(%q): %v", b, err), "")
+		}
+		for _, p := range problems {
+			h.c.Fail("listed-is-readable", h.lines(), fmt.Sprintf("mailbox %q: %s", b, p), "")
+		}
+	}
+	obs.views = strings.Join(parts, " ")
+	obs.ids = map[string]bool{}
+	if ms, err := h.st.GetMessages(o.box); err == nil {
+		for _, m := range ms {
+			obs.ids[m.ID()] = true
+		}
+	}
+	// the directory of the operation's mailbox
+	dir := h.boxPath(o.box)
+	if ents, err := os.ReadDir(dir); err == nil {
+		obs.dir = 1
+		ranks := []int{}
+		tmp, other := false, []string{}
+		for _, e := range ents {
+			n := e.Name()
+			switch {
+			case n == "index.gob":
+			case n == "index.gob.tmp":
+				tmp = true
+			case strings.HasSuffix(n, ".raw"):
+				if id := strings.TrimSuffix(n, ".raw"); !obs.ids[id] {
+					ranks = append(ranks, h.rank(o.box, id))
+				}
+			default:
+				other = append(other, "other:"+n)
+			}
+		}
+		sort.Ints(ranks)
+		for _, x := range ranks {
+			obs.orphans = append(obs.orphans, fmt.Sprintf("raw:%d", x))
+		}
+		if tmp {
+			obs.orphans = append(obs.orphans, "tmp")
+		}
+		obs.orphans = append(obs.orphans, other...)
+	}
+	return obs, in
+}
+
+// the model's answer for the same operation with the calls that were really obstructed refused
+func (h *fsf) ask(o storeOp, ks []int, dry bool) string {
+	s := make([]string, len(ks))
+	for i, k := range ks {
+		s[i] = strconv.Itoa(k)
+	}
+	ref := "_"
+	if len(s) > 0 {
+		ref = strings.Join(s, ",")
+	}
+	q := fmt.Sprintf("fault %s refuse=%s", c11Line(o), ref)
+	if dry {
+		q += " dry=1"
+	}
+	return h.m.Ask(q)
+}
+
+func fsfTrace(ans string) []string {
+	for _, f := range strings.Fields(ans) {
+		if strings.HasPrefix(f, "trace=") {
+			if f == "trace=_" {
+				return nil
+			}
+			return strings.Split(strings.TrimPrefix(f, "trace="), ",")
+		}
+	}
+	return nil
+}
+
+func fsfIsIndexWrite(tok string) bool {
+	switch tok {
+	case "create-tmp", "flush-tmp", "close-tmp", "rename", "unlink-index", "removeall":
+		return true
+	}
+	return false
+}
+
+func fsfInjectable(tok string) bool {
+	if strings.HasPrefix(tok, "close-") || tok == "removeall" || tok == "flush-raw" {
+		return false
+	}
+	return true
+}
+
+// step executes one operation: real store with injection, model, comparison, oracles.  exact: the exactness oracles apply to it.
+func (h *fsf) step(o storeOp, refuse []int, label string, exact bool) (*fsfObs, *fsfInject) {
+	c := h.c
+	line := c11Line(o)
+	if o.kind == "add" {
+		if h.bodies[o.box] == nil {
+			h.bodies[o.box] = map[int][]byte{}
+		}
+		h.bodies[o.box][o.id] = o.body
+	}
+	obs, in := h.run(o, refuse)
+	if h.dead {
+		return obs, in
+	}
+	sort.Ints(in.injected)
+	inj := fmt.Sprint(in.injected)
+	h.trace = append(h.trace, fmt.Sprintf("%s   [%s; hook calls refused: %s; could not be obstructed: %v] -> %s", c11Short(line), label, inj, in.skipped, obs.res))
+	c.Count(strings.Join(h.trace, "\n"), len(in.injected) > 0)
+	c.H("fsfault:op:" + o.kind + ":" + obs.res)
+	for _, k := range in.injected {
+		if k < len(obs.toks) {
+			t := obs.toks[k]
+			if j := strings.Index(t, ":"); j >= 0 {
+				t = t[:j]
+			}
+			c.H("fsfault:refused:" + o.kind + ":" + t)
+		}
+	}
+	for _, s := range in.skipped {
+		c.H("fsfault:not-obstructable:" + s[strings.Index(s, ":")+1:])
+	}
+	if strings.HasPrefix(obs.res, "panic") {
+		c.Fail("no-panic", h.lines(), obs.res, "")
+		h.dead = true
+		return obs, in
+	}
+	// ---- oracles that hold after ANY set of refused calls
+	for _, b := range h.names {
+		if b != o.box && obs.per[b] != h.before[b] {
+			c.Fail("untouched-unchanged", h.lines(), fmt.Sprintf("mailbox %q (not the operation's) lists %s, before the operation %s", b, c11Short(obs.per[b]), c11Short(h.before[b])), "")
+		}
+	}
+	if len(in.injected) == 0 && len(refuse) == 0 && obs.res == "err" {
+		c.Fail("usable-after-fault", h.lines(), "an operation without any fault failed", "")
+	}
+	// ---- the event bookkeeping of the addressed mailbox (names[0])
+	if o.box == h.names[0] {
+		for _, e := range obs.fresh {
+			if e[0] == o.box {
+				h.announced[e[1]]++
+			}
+		}
+		disagree := false
+		for id, n := range h.announced {
+			if n > 1 || obs.ids[id] {
+				disagree = true
+			}
+		}
+		if exact && !h.tainted {
+			for _, e := range obs.fresh {
+				id := e[1]
+				if e[0] != o.box {
+					c.Fail("events-exact", h.lines(), fmt.Sprintf("a deleted event for %s/%s was emitted by an operation on %q", e[0], id, o.box), "")
+					continue
+				}
+				if h.announced[id] > 1 {
+					c.Fail("deleted-event-once", h.lines(), fmt.Sprintf("message %s/%s was announced as deleted %d times", o.box, id, h.announced[id]), "")
+				}
+				if obs.ids[id] {
+					c.Fail("deleted-means-gone", h.lines(), fmt.Sprintf("message %s/%s was announced as deleted and is still listed", o.box, id), "")
+				}
+			}
+			for id := range h.listed {
+				if !obs.ids[id] && h.announced[id] == 0 {
+					c.Fail("events-exact", h.lines(), fmt.Sprintf("message %s/%s left the mailbox without a deleted event", o.box, id), "")
+				}
+			}
+		} else if disagree && !h.tainted {
+			h.tainted = true
+			c.H("fsfault:events-and-disk-disagree:" + label)
+		}
+		h.listed = obs.ids
+	}
+	h.before = obs.per
+	// ---- T2: the model
+	if !h.noModel {
+		ans := h.ask(o, in.injected, false)
+		c.Compared(1)
+		if impl := obs.String(); impl != ans {
+			c.Diverge("fsfault-outcome", h.lines("--> res, deleted events, hook trace, directory, unlisted files, views of all mailboxes"), impl, ans)
+			h.noModel = true
+		}
+	}
+	return obs, in
+}
+
+func (h *fsf) newAdd(r *rand.Rand, box string) storeOp {
+	h.adds[box]++
+	k := h.adds[box]
+	body := make([]byte, 20+r.Intn(60))
+	copy(body, "Subject: t\r\n\r\n")
+	for i := 14; i < len(body); i++ {
+		body[i] = byte('a' + r.Intn(26))
+	}
+	if r.Intn(12) == 0 {
+		body = nil
+	}
+	to := make([]string, r.Intn(3))
+	for i := range to {
+		to[i] = fmt.Sprintf("rcpt%d@dest.org", r.Intn(9))
+	}
+	return storeOp{kind: "add", box: box, id: k, body: body, from: fmt.Sprintf("s%d@src.net", r.Intn(5)), to: to, subj: fmt.Sprintf("t%d", k), date: 1700000000 + int64(k)*17}
+}
+
+// the ranks listed in names[0], oldest first
+func (h *fsf) listedRanks() []int {
+	res := []int{}
+	if ms, err := h.st.GetMessages(h.names[0]); err == nil {
+		for _, m := range ms {
+			res = append(res, h.rank(h.names[0], m.ID()))
+		}
+	}
+	return res
+}
 
 func c16FsFault(c *core.Ctx) {
 	c16FsMu.Lock()
 	defer c16FsMu.Unlock()
 	defer func() { file.VerifStepHook = nil }()
+	start := time.Now()
 	r := c.SubRng("c16-fsfault")
-	n := c.Scale(60, 1200)
+	m := c.NewModel("crash")
+	defer m.Close()
+	n := c.Scale(160, 3000)
+	ops, faulty := 0, 0
+	fsfWitnesses(c, m, r)
 	for i := 0; i < n; i++ {
-		dir := filepath.Join(c.Workdir, fmt.Sprintf("c16-fsfault-%d-%d", os.Getpid(), i))
-		os.MkdirAll(dir, 0o755)
-		cap := 1 + r.Intn(3)
-		b, err := newBackend("file", cap, 0, dir)
-		if err != nil {
-			c.Fail("setup", nil, err.Error(), "")
-			os.RemoveAll(dir)
+		a, b := fsfScenario(c, m, r, i)
+		ops += a
+		faulty += b
+	}
+	c.Note("C16 fsfault: %d scenarios, %d operations compared with the fault model, %d of them with at least one refused call, %.1fs", n, ops, faulty, time.Since(start).Seconds())
+}
+
+// fsfOpen: a fresh file store with a recording listener, and the model set up for the same mailboxes
+func fsfOpen(c *core.Ctx, m *core.Model, r *rand.Rand, label string, cap int, names []string) (*fsf, func()) {
+	root := filepath.Join(c.Workdir, fmt.Sprintf("c16-fsfault-%d-%s", os.Getpid(), label))
+	os.MkdirAll(root, 0o755)
+	cleanup := func() { os.RemoveAll(root) }
+	h := &fsf{c11Enc: newC11Enc(), c: c, m: m, r: r, root: root, barrier: make(chan string, 4), adds: map[string]int{},
+		listed: map[string]bool{}, announced: map[string]int{}, before: map[string]string{}}
+	h.cap = cap
+	h.names = names
+	h.host = extension.NewHost()
+	h.host.Events.AfterMessageDeleted.AddListener("verif-fsfault", func(md event.MessageMetadata) {
+		if md.Mailbox == fsfBarrierBox {
+			h.barrier <- md.ID
 			return
 		}
-		box := []string{"fault", "Fault@example.com", "x"}[r.Intn(3)]
-		trace := []string{fmt.Sprintf("file store, cap %d, mailbox %q", cap, box)}
-		listed := map[string]bool{} // ids listed after the previous operation
-		everListed := map[string]bool{}
-		check := func(after string) bool {
-			ms, err := b.st.GetMessages(box)
-			if err != nil {
-				c.Fail("listing-works", append(trace, after), "GetMessages: "+err.Error(), "")
-				return false
-			}
-			now := map[string]bool{}
-			for _, m := range ms {
-				now[m.ID()] = true
-				everListed[m.ID()] = true
-				rd, err := m.Source()
-				if err != nil {
-					c.Fail("listed-is-readable", append(trace, after), fmt.Sprintf("message %s is listed but its source cannot be opened: %v", m.ID(), err), "")
-					return false
-				}
-				io.Copy(io.Discard, rd)
-				rd.Close()
-			}
-			// deleted events are dispatched asynchronously: give every message that has left the listing up to 3 s to be announced
-			var ev []string
-			for deadline := time.Now().Add(3 * time.Second); ; time.Sleep(time.Millisecond) {
-				b.mu.Lock()
-				ev = append([]string{}, b.deleted...)
-				b.mu.Unlock()
-				got := map[string]bool{}
-				for _, e := range ev {
-					got[e[strings.LastIndex(e, "/")+1:]] = true
-				}
-				missing := false
-				for id := range listed {
-					if !now[id] && !got[id] {
-						missing = true
-					}
-				}
-				if !missing || time.Now().After(deadline) {
-					break
-				}
-			}
-			seen := map[string]int{}
-			for _, e := range ev {
-				id := e[strings.LastIndex(e, "/")+1:]
-				seen[id]++
-				if seen[id] > 1 {
-					c.Fail("deleted-event-once", append(trace, after), fmt.Sprintf("message %s/%s was announced as deleted %d times", box, id, seen[id]), "")
-					return false
-				}
-				if now[id] {
-					c.Fail("deleted-means-gone", append(trace, after), fmt.Sprintf("message %s/%s was announced as deleted and is still listed", box, id), "")
-					return false
-				}
-			}
-			for id := range listed {
-				if !now[id] && seen[id] == 0 {
-					c.Fail("events-exact", append(trace, after), fmt.Sprintf("message %s/%s left the mailbox without a deleted event", box, id), "")
-					return false
-				}
-			}
-			listed = now
-			c.Compared(1)
-			return true
-		}
-		ok := true
-		for k := 0; k < cap && ok; k++ { // fill the mailbox
-			if _, err := b.st.AddMessage(c09Delivery(box, k, 30+r.Intn(50), time.Now())); err != nil {
-				c.Fail("setup", trace, "AddMessage: "+err.Error(), "")
-				ok = false
-			}
-		}
-		ok = ok && check("after filling the mailbox")
-		for round := 0; round < 3 && ok; round++ {
-			// one delivery with ONE failing index write (the 1st create-tmp is the eviction's, the last the delivery's own)
-			target := 1 + r.Intn(2)
-			seenTmp, blocked := 0, ""
-			file.VerifStepHook = func(step, path string) {
-				if blocked != "" {
-					os.Remove(blocked)
-					blocked = ""
-				}
-				if step == "create-tmp" {
-					seenTmp++
-					if seenTmp == target {
-						if os.Mkdir(path, 0o755) == nil {
-							blocked = path
-						}
-					}
-				}
-			}
-			_, err := b.st.AddMessage(c09Delivery(box, 100+round, 30+r.Intn(50), time.Now()))
-			file.VerifStepHook = nil
-			if blocked != "" {
-				os.Remove(blocked)
-			}
-			trace = append(trace, fmt.Sprintf("AddMessage with index write #%d of it refused once by the file system -> %v", target, err))
-			c.H(fmt.Sprintf("fsfault:index-write-%d-refused:%s", target, map[bool]string{true: "delivery-failed", false: "delivery-ok"}[err != nil]))
-			ok = check("after the faulty delivery")
-			// the disk works again: two ordinary deliveries (each evicts the oldest)
-			for k := 0; k < 2 && ok; k++ {
-				if _, err := b.st.AddMessage(c09Delivery(box, 200+10*round+k, 30+r.Intn(50), time.Now())); err != nil {
-					c.Fail("usable-after-fault", append(trace, "a later delivery, no fault"), "AddMessage: "+err.Error(), "")
-					ok = false
-					break
-				}
-				trace = append(trace, "AddMessage (no fault) -> ok")
-				ok = check("after a later delivery")
-			}
-		}
-		c.Count(strings.Join(trace, "|"), true)
-		os.RemoveAll(dir)
+		h.mu.Lock()
+		h.deleted = append(h.deleted, [2]string{md.Mailbox, md.ID})
+		h.mu.Unlock()
+	})
+	st, err := file.New(config.Storage{MailboxMsgCap: h.cap, Params: map[string]string{"path": root}}, h.host)
+	if err != nil {
+		c.Fail("setup", nil, err.Error(), "")
+		return nil, cleanup
 	}
+	h.st = st
+	setup := []string{fmt.Sprintf("cfg cap=%d variant=safe", h.cap)}
+	for _, b := range h.names {
+		hash := stringutil.HashMailboxName(b)
+		l1, _ := strconv.ParseUint(hash[:3], 16, 64)
+		l2, _ := strconv.ParseUint(hash[:6], 16, 64)
+		setup = append(setup, fmt.Sprintf("box %s l1=%d l2=%d", core.HexS(b), l1, l2))
+	}
+	for _, l := range setup {
+		h.trace = append(h.trace, l)
+		if a := m.Ask(l); a != "ok" {
+			c.Diverge("crash-driver", h.lines(), "ok", a)
+			return nil, cleanup
+		}
+	}
+	for _, b := range h.names {
+		h.before[b] = "[]"
+	}
+	return h, cleanup
+}
+
+// fsfWitnesses replays the concrete states of the counter-witness theorems of Props/C16Fault.lean on the real store: the implementation must
+// do what the THEOREMS say (result class and deleted events, step by step), besides agreeing with the model.
+func fsfWitnesses(c *core.Ctx, m *core.Model, r *rand.Rand) {
+	type stp struct {
+		o      storeOp
+		refuse []int
+		res    string
+		events string
+	}
+	add := func(k int, body string) storeOp {
+		return storeOp{kind: "add", box: "a", id: k, body: []byte(body), from: "s", to: []string{"r"}, subj: "x", date: 1700000000}
+	}
+	cases := []struct {
+		name string
+		cap  int
+		stps []stp
+	}{
+		{"refused_index_write_in_remove_announces_twice", 0, []stp{
+			{add(1, "hello"), nil, "ok", ""}, {add(2, "yo"), nil, "ok", ""},
+			{storeOp{kind: "rm", box: "a", id: 1}, []int{0}, "err", "1"},
+			{storeOp{kind: "rm", box: "a", id: 1}, nil, "ok", "1"}}},
+		{"both_index_writes_refused_in_capped_add_fails", 2, []stp{
+			{add(1, "hello"), nil, "ok", ""}, {add(2, "yo"), nil, "ok", ""},
+			{add(3, "!"), []int{0, 5}, "err", "1"},
+			{add(4, "\""), nil, "ok", "1"}}},
+		{"refused_unlink_index_in_purge_keeps_everything_listed", 0, []stp{
+			{add(1, "hello"), nil, "ok", ""}, {add(2, "yo"), nil, "ok", ""},
+			{storeOp{kind: "purge", box: "a"}, []int{0}, "err", "1,2"}}},
+	}
+	for _, cs := range cases {
+		h, cleanup := fsfOpen(c, m, r, "witness-"+cs.name, cs.cap, []string{"a"})
+		if h == nil {
+			cleanup()
+			continue
+		}
+		h.trace = append(h.trace, "theorem "+cs.name)
+		var before string
+		for i, st := range cs.stps {
+			if st.o.kind == "add" {
+				h.adds["a"] = st.o.id
+			}
+			if len(st.refuse) > 0 {
+				before = h.before["a"]
+			}
+			obs, in := h.step(st.o, st.refuse, "counter-witness", false)
+			if h.dead {
+				break
+			}
+			got := fmt.Sprintf("res=%s events=%s refused=%v", obs.res, strings.Join(obs.events, ","), in.injected)
+			want := fmt.Sprintf("res=%s events=%s refused=%v", st.res, st.events, append([]int{}, st.refuse...))
+			c.Compared(1)
+			if got != want {
+				c.Diverge("fsfault-counter-witness", h.lines(fmt.Sprintf("--> step %d of the theorem's scenario", i)), got, want)
+				break
+			}
+			if len(st.refuse) > 0 && obs.per["a"] != before {
+				c.Diverge("fsfault-counter-witness", h.lines("--> the theorem says the mailbox reads as before the refused operation"), obs.per["a"], before)
+				break
+			}
+		}
+		c.H("fsfault:counter-witness-replayed")
+		cleanup()
+	}
+}
+
+func fsfScenario(c *core.Ctx, m *core.Model, r *rand.Rand, idx int) (nOps, nFaulty int) {
+	cap := 1 + r.Intn(3)
+	if r.Intn(10) == 0 {
+		cap = 0
+	}
+	box := []string{"fault", "Fault@example.com", "x"}[r.Intn(3)]
+	names := []string{box}
+	switch r.Intn(4) {
+	case 0: // a bystander somewhere else
+		names = append(names, "bystander")
+	case 1: // a bystander in the same level-1 directory
+		p := collidePool()
+		if len(p) >= 2 {
+			names = []string{p[0], p[1]}
+		}
+	case 2: // … in the same level-2 directory
+		p := c11SameL2()
+		if len(p) >= 2 {
+			names = []string{p[0], p[1]}
+		}
+	}
+	box = names[0]
+	h, cleanup := fsfOpen(c, m, r, strconv.Itoa(idx), cap, names)
+	defer cleanup()
+	if h == nil {
+		return
+	}
+	count := func(in *fsfInject) {
+		nOps++
+		if len(in.injected) > 0 {
+			nFaulty++
+		}
+	}
+	alive := func() bool { return !h.dead }
+	// ---- fill: the bystander gets mail, the mailbox is filled to its cap
+	if len(h.names) > 1 {
+		for k := 0; k < 1+r.Intn(2) && alive(); k++ {
+			_, in := h.step(h.newAdd(r, h.names[1]), nil, "no fault", true)
+			count(in)
+		}
+	}
+	fill := h.cap
+	if fill == 0 {
+		fill = 1 + r.Intn(3)
+	}
+	for k := 0; k < fill && alive(); k++ {
+		_, in := h.step(h.newAdd(r, box), nil, "no fault", true)
+		count(in)
+	}
+	// ---- rounds: one faulty operation, then the disk works again: two ordinary deliveries
+	for round := 0; round < 3 && alive(); round++ {
+		var o storeOp
+		var refuse []int
+		label := ""
+		exact := false
+		pickListed := func() int {
+			l := h.listedRanks()
+			if len(l) == 0 || r.Intn(8) == 0 {
+				return 9000 + r.Intn(5)
+			}
+			return l[r.Intn(len(l))]
+		}
+		dry := func(ks []int) []string { return fsfTrace(h.ask(o, ks, true)) }
+		pick := func(toks []string, ok func(string) bool, from int) int {
+			cand := []int{}
+			for k := from; k < len(toks); k++ {
+				t := toks[k]
+				if j := strings.Index(t, ":"); j >= 0 {
+					t = t[:j]
+				}
+				if ok(t) {
+					cand = append(cand, k)
+				}
+			}
+			if len(cand) == 0 {
+				return -1
+			}
+			return cand[r.Intn(len(cand))]
+		}
+		any := func(string) bool { return true }
+		switch x := r.Intn(100); {
+		case x < 40:
+			o, label, exact = h.newAdd(r, box), "delivery, ONE refused call", true
+			if k := pick(dry(nil), any, 0); k >= 0 {
+				refuse = []int{k}
+			}
+		case x < 58:
+			o, label, exact = h.newAdd(r, box), "delivery, ONE refused index write", true
+			if k := pick(dry(nil), fsfIsIndexWrite, 0); k >= 0 {
+				refuse = []int{k}
+			}
+		case x < 68:
+			o, label = h.newAdd(r, box), "delivery, the eviction's and its own index write refused"
+			if k1 := pick(dry(nil), func(t string) bool { return t == "create-tmp" || t == "unlink-index" || t == "rename" }, 0); k1 >= 0 {
+				refuse = []int{k1}
+				t2 := dry(refuse)
+				last := -1
+				for k := k1 + 1; k < len(t2); k++ {
+					if t2[k] == "create-tmp" {
+						last = k
+					}
+				}
+				if last >= 0 {
+					refuse = append(refuse, last+[]int{0, 0, 3}[r.Intn(3)]) // create-tmp or rename of the delivery's own index write
+				}
+			}
+		case x < 80:
+			o, label = storeOp{kind: "rm", box: box, id: pickListed()}, "RemoveMessage, ONE refused call"
+			if k := pick(dry(nil), any, 0); k >= 0 {
+				refuse = []int{k}
+			}
+		case x < 86:
+			o, label, exact = storeOp{kind: "seen", box: box, id: pickListed()}, "MarkSeen, ONE refused call", true
+			if k := pick(dry(nil), any, 0); k >= 0 {
+				refuse = []int{k}
+			}
+		case x < 92:
+			o, label = storeOp{kind: "purge", box: box}, "PurgeMessages, ONE refused call"
+			if k := pick(dry(nil), any, 0); k >= 0 {
+				refuse = []int{k}
+			}
+		default:
+			switch r.Intn(3) {
+			case 0:
+				o = h.newAdd(r, box)
+			case 1:
+				o = storeOp{kind: "rm", box: box, id: pickListed()}
+			default:
+				o = storeOp{kind: "purge", box: box}
+			}
+			label = o.kind + ", TWO refused calls"
+			if k1 := pick(dry(nil), fsfInjectable, 0); k1 >= 0 {
+				refuse = []int{k1}
+				if k2 := pick(dry(refuse), fsfInjectable, k1+1); k2 >= 0 {
+					refuse = append(refuse, k2)
+				}
+			}
+		}
+		obs, in := h.step(o, refuse, label, exact && len(refuse) <= 1)
+		count(in)
+		if !alive() {
+			break
+		}
+		// the counter-witness cases of the model, observed on the implementation alone (histogram only; the comparison above is the tie)
+		if len(in.injected) > 0 && o.kind != "seen" {
+			for _, e := range obs.fresh {
+				if e[0] == box && obs.ids[e[1]] {
+					c.H("fsfault:announced-deleted-and-still-listed:" + o.kind + ":" + obs.res)
+					break
+				}
+			}
+		}
+		for k := 0; k < 2 && alive(); k++ {
+			obs2, in2 := h.step(h.newAdd(r, box), nil, "no fault, after the faulty operation", true)
+			count(in2)
+			if alive() && obs2.res != "ok" {
+				c.Fail("usable-after-fault", h.lines(), "a delivery after the fault has gone answered "+obs2.res, "")
+			}
+		}
+	}
+	if idx < 4 {
+		c.Sample(map[string]interface{}{"leg": "fsfault", "scenario": idx, "cap": h.cap, "mailboxes": h.names, "lines": h.trace})
+	}
+	return
 }
